@@ -51,6 +51,8 @@ type Closure struct {
 	fn  *ssa.Function
 	env []value
 	bi  *ssa.Builtin
+	// native: a function value implemented by the engine (e.g. the swapper sort.Slice gets from reflection)
+	native func(in *Interp, caller *frame, args []value) value
 }
 
 type Map struct {
